@@ -39,6 +39,8 @@ func (cp *CachedPlanner) WithPlannerExecutor(e Planner) *CachedPlanner {
 
 func (cp *CachedPlanner) hash(ctx *PlanningContext) hashKey {
 	s := format.NewBufferedFormatter().FormatSelectionSet(ctx.Operation.SelectionSet)
+	// plan depends on operation type and name, not only on selection set
+	s = string(ctx.Operation.Operation) + " " + ctx.Operation.Name + " " + s
 	sha1 := sha1.Sum([]byte(s))
 	return sha1
 }
